@@ -1,7 +1,7 @@
 #!/usr/bin/env python3
 """Evaluates one seeded change produced by a sub-agent.
 
-  bin/seed-eval.py <property> <index> [--props C01,C15,...] [--skip-confirm]
+  bin/seed-eval.py <property> <index> [--round b] [--props C01,C15,...] [--skip-confirm]
 
 1. confirmation, in a scratch worktree of /repo outside /repo and /verif (/tmp/scr/wt, build output
    in /tmp/scr/target): the patch applies, the workspace builds, the existing suite passes with it
@@ -24,13 +24,15 @@ props = [prop]
 skip_confirm = "--skip-confirm" in sys.argv
 if "--props" in sys.argv:
     props = sys.argv[sys.argv.index("--props") + 1].split(",")
-out_dir = f"/tmp/mut/{prop}-out"
+# --round b: the second round of sub-agents wrote to /tmp/mut/<property>b-out
+rnd = sys.argv[sys.argv.index("--round") + 1] if "--round" in sys.argv else ""
+out_dir = f"/tmp/mut/{prop}{rnd}-out"
 patch = f"{out_dir}/patch{idx}.diff"
 demos = [d for d in glob.glob(f"{out_dir}/demo{idx}*.rs")]
 assert os.path.exists(patch), patch
 assert demos, "no demo"
 demo = demos[0]
-res = {"property": prop, "index": idx, "patch": patch, "demo": demo}
+res = {"property": prop, "index": idx, "round": rnd, "patch": patch, "demo": demo}
 CONFIRM = ("applies", "demo_with_patch_fails", "demo_with_patch_tail", "suite_with_patch_passes", "suite_tail",
            "demo_without_patch_passes", "demo_without_patch_tail")
 if skip_confirm and os.path.exists(f"{out_dir}/eval{idx}.json"):
